@@ -89,7 +89,17 @@ def write_layout(root, groups, layout):
                 for g, lo, hi in f['chunks']]
         kind = f['kind']
         name = f'res_{i:02d}'
-        if kind == 'json':
+        # a file holding one record may be a bare dict (what
+        # BaseSimulation.save_results writes) instead of a one-element list
+        single = recs[0] if (len(recs) == 1 and f.get('bare')) else recs
+        if kind in ('json', 'gz') and single is not recs:
+            if kind == 'json':
+                with open(os.path.join(root, name + '.json'), 'w') as fh:
+                    json.dump(single, fh)
+            else:
+                with gzip.open(os.path.join(root, name + '.json.gz'), 'wb') as fh:
+                    fh.write(json.dumps(single).encode())
+        elif kind == 'json':
             with open(os.path.join(root, name + '.json'), 'w') as fh:
                 json.dump(recs, fh)
         elif kind == 'gz':
@@ -108,7 +118,8 @@ def write_layout(root, groups, layout):
             for j, r in enumerate(recs):
                 p = os.path.join(tmp, f'{name}_{j}.json')
                 with open(p, 'w') as fh:
-                    json.dump([r], fh)
+                    # alternate bare single-run dicts and one-element lists
+                    json.dump(r if (f.get('bare') and j % 2 == 0) else [r], fh)
                 parts.append(p)
             out = os.path.join(root, name + '_merged.json.gz')
             res = CliRunner().invoke(cli, ['merge-results', '-o', out] + parts)
@@ -282,7 +293,7 @@ def layouts(draw, groups):
                 f['chunks'].append([gi, lo, hi])
             else:
                 files.append({'kind': draw(st.sampled_from(KINDS)), 'zip': draw(st.integers(0, 1)),
-                              'chunks': [[gi, lo, hi]]})
+                              'bare': draw(st.booleans()), 'chunks': [[gi, lo, hi]]})
     perm = draw(st.permutations(list(range(len(files)))))
     files = [files[i] for i in perm]
     return {'files': files, 'paths': draw(st.sampled_from(['dir', 'files'])),
